@@ -260,6 +260,22 @@ def array_cases(ctx):
                 if "{a}" in use:
                     vv["a"] = 0.25
                 out.append((src, vv, names))
+    # several whole-array parameters in one template (two and three; names one of which begins like another), with a scalar
+    # parameter before / between / after them in the call, values handed over in every order of the keywords
+    shp = ((1, 1), (1, 3), (2, 2), (3, 1))
+    mk = lambda r, c, base: [[base * (1 + i * c + j) for j in range(c)] for i in range(r)]
+    for (s1, s2), (n1, n2) in itertools.product(itertools.product(shp, repeat=2), (("U", "V"), ("U", "U2"), ("W_0", "W"))):
+        src = "float array A[%d, %d] =\n    {%s}\ncomplex array B[%d, %d] =\n    {%s}\nG(A, {a}, k=B) | 0\nH(B[0], A[0]) | 1\n" % (s1 + (n1,) + s2 + (n2,))
+        names = ["%s_%d_%d" % (n1, i, j) for i in range(s1[0]) for j in range(s1[1])] + ["%s_%d_%d" % (n2, i, j) for i in range(s2[0]) for j in range(s2[1])] + ["a"]
+        items = [(n1, mk(s1[0], s1[1], 0.5)), (n2, mk(s2[0], s2[1], 0.25 + 1j)), ("a", -1.25)]
+        for perm in itertools.permutations(items):
+            out.append((src, dict(perm), names))
+    for s1, s2, s3 in (((1, 2), (2, 1), (2, 2)), ((2, 2), (2, 2), (2, 2)), ((1, 1), (1, 2), (1, 3))):
+        src = "float array A[%d, %d] =\n    {U}\nfloat array B[%d, %d] =\n    {V}\nint array C[%d, %d] =\n    {W}\nG(A, B, C) | 0\n" % (s1 + s2 + s3)
+        names = [n + "_%d_%d" % (i, j) for n, sh in (("U", s1), ("V", s2), ("W", s3)) for i in range(sh[0]) for j in range(sh[1])]
+        items = [("U", mk(s1[0], s1[1], 0.5)), ("V", mk(s2[0], s2[1], -0.75)), ("W", mk(s3[0], s3[1], 3))]
+        for perm in itertools.permutations(items):
+            out.append((src, dict(perm), names))
     # parameters whose names begin like the whole-array parameter or like its generated element names (P_scale, P_0, Px),
     # written before and after the array declaration
     for (r, c), extra, before in itertools.product(((1, 2), (2, 2)), ("P_scale", "P_0", "Px", "P_0_0_x", "PP"), (True, False)):
